@@ -63,6 +63,17 @@ def run(run, replay=None):
             if n % 200 == 0:
                 run.sample({'ids': ids, 'inserted': [(si, pos, k[:20], v[:20]) for si, pos, k, v in ins]})
             n += 1
+    for ids in [p for p in paths if len(p) >= 3][:2]:
+        seed = rng.randrange(1 << 30)
+        base_data, _x = fgen.build_file(ids, random.Random(seed))
+        base = rdriver.read_bytes(base_data)
+        if base[1] == 'done':
+            si = rng.randrange(len(ids))
+            ins = [(si, 0, 'k%03d' % j, rng.choice(['v', '7', 'a/b'])) for j in range(450)]       # one header line of ~4.5 KiB
+            data, _x = fgen.build_file(ids, random.Random(seed), unknown=ins)
+            cases.append(rdriver.case(n, 'unknown', data, cat, base=base[0], baseend=base[1],
+                                      ins=[{'sec': s_ + 1, 'k': list(k.encode()), 'v': list(v.encode())} for s_, _p, k, v in ins], ship_file=True))
+            n += 1
     def _mk_canaries():
         can = []
         pool = [c for c in cases if c['recs'] and c['end'] == c['baseend'] and len(c['recs']) == len(c['base'])
